@@ -45,8 +45,9 @@ let tok_ic_of (s : string) : tok_ic =
 (* "s<N>" is a selective probe: the implementation asks only at let / return / function
    tokens; the model's probe answers are a function of the state alone, so its log is the
    full log with the other entries of that probe removed (selective_ids, fmt_events) *)
-let stmt_ic_of s = if s = "p" then SI_Pass else SI_Probe (z_of_int (int_of_string (drop 1 s)))
-let expr_ic_of s = if s = "p" then EI_Pass else if s = "r" then EI_Reentrant else EI_Probe (z_of_int (int_of_string (drop 1 s)))
+(* "b" = an interceptor that runs a second parser built from the same builder and passes through: parsers are isolated, so the model sees a pass-through *)
+let stmt_ic_of s = if s = "p" || s = "b" then SI_Pass else SI_Probe (z_of_int (int_of_string (drop 1 s)))
+let expr_ic_of s = if s = "p" || s = "b" then EI_Pass else if s = "r" then EI_Reentrant else EI_Probe (z_of_int (int_of_string (drop 1 s)))
 let selective_ids (c : pcase) : int list =
   List.filter_map (fun s -> if s <> "" && s.[0] = 's' then Some (int_of_string (drop 1 s)) else None) (c.si @ c.ei)
 let selective_token (id : int) (t : token) : bool =
